@@ -208,7 +208,7 @@ def corpus(tier, seed, profile="release", n=None, per_instance_timeout=60, chunk
     self-contained TracePipe trace (line numbers are local to the chunk)."""
     if instances is None:
         if n is None:
-            n = 320 if tier == "quick" else 6000
+            n = 660 if tier == "quick" else 6600
         d = common.cache_dir(tag, tier, seed, profile, n)
         mp = os.path.join(d, "meta.json")
         if os.path.exists(mp):
